@@ -22,6 +22,7 @@ import (
 	"encoding/hex"
 	"encoding/json"
 	"fmt"
+	"github.com/6tail/lunar-go/SolarUtil"
 	"math"
 	"math/rand"
 	"os"
@@ -122,6 +123,10 @@ func c09Exec(o c09Op) (dig string) {
 		return sha(digest1(calendar.NewSolar(a[0], a[1], a[2], a[3], a[4], a[5]).GetLunar().Next(a[6])))
 	case "nsolar":
 		return sha(calendar.NewSolar(a[0], a[1], a[2], a[3], a[4], a[5]).ToYmdHms())
+	case "sub":
+		s1, s2 := calendar.NewSolar(a[0], a[1], a[2], a[3], a[4], a[5]), calendar.NewSolar(a[6], a[7], a[8], a[5], a[4], a[3])
+		return sha(fmt.Sprint(s1.Subtract(s2), s2.Subtract(s1), s1.SubtractMinute(s2), s1.IsBefore(s2), s1.IsAfter(s2), SolarUtil.GetDaysBetween(a[0], a[1], a[2], a[6], a[7], a[8]),
+			SolarUtil.GetDaysInYear(a[0], a[1], a[2]), SolarUtil.GetWeek(a[6], a[7], a[8]), SolarUtil.GetDaysOfYear(a[6]), SolarUtil.GetJulianDay(a[0], a[1], a[2], a[3], a[4], a[5])))
 	case "solar":
 		return sha(digest1(calendar.NewSolar(a[0], a[1], a[2], a[3], a[4], a[5])))
 	case "scribble":
@@ -171,6 +176,20 @@ func c09Exec(o c09Op) (dig string) {
 			}
 		}
 		l.GetEightChar().SetSect(1)
+		// one Solar converted twice: the second Lunar is a new object with its own (default) chart
+		sol := calendar.NewSolar(a[0], a[1], a[2], 23, a[4], a[5])
+		chart0 := digest1(sol.GetLunar().GetEightChar())
+		sol.GetLunar().GetEightChar().SetSect(1)
+		if now := digest1(sol.GetLunar().GetEightChar()); now != chart0 {
+			return "LEAK: SetSect on the chart of solar.GetLunar() changed the chart a later solar.GetLunar() of the same Solar hands out: " + diffDigests(chart0, now)
+		}
+		if ts := l.GetJieQiTable()["立春"]; ts != nil {
+			c0 := digest1(ts.GetLunar().GetEightChar())
+			ts.GetLunar().GetEightChar().SetSect(1)
+			if now := digest1(ts.GetLunar().GetEightChar()); now != c0 {
+				return "LEAK: SetSect on the chart of a term-table Solar's Lunar changed what a later GetLunar() of that Solar hands out: " + diffDigests(c0, now)
+			}
+		}
 		// objects reached through stepping are new objects: configuring them must not reconfigure the one stepped from
 		l0 := mk()
 		own := digest1(l0.GetEightChar())
@@ -200,7 +219,7 @@ func c09Exec(o c09Op) (dig string) {
 	case "astro":
 		x := float64(a[0]) / 1000
 		return fmt.Sprintf("%.9f/%.9f/%.9f/%.9f", ShouXingUtil.CalcQi(x), ShouXingUtil.CalcShuo(x), ShouXingUtil.QiAccurate2(x), ShouXingUtil.SaLonT(x/36525)) +
-			fmt.Sprintf("/%.9f", ShouXingUtil.QiAccurate(math.Floor(x/15.2184)*math.Pi/12))
+			fmt.Sprintf("/%.9f/%.9f/%.9f", ShouXingUtil.QiAccurate(math.Floor(x/15.2184)*math.Pi/12), ShouXingUtil.QiAccurate(x/365.2422*2*math.Pi), ShouXingUtil.QiAccurate((math.Floor(x/15.2184)+1.0/3)*math.Pi/12))
 	case "obj":
 		// not hashed: the parent names the first differing call
 		return mapDigest(c09ObjExec(a, c09Salt))
@@ -417,7 +436,8 @@ func c09Day(rng *rand.Rand, y int) (int, int, int) {
 	return randDayIn(rng, y, y)
 }
 
-var c09Years = []int{2019, 2020, 2021, 2033, 2034, 1582, 15, 16, 9998, 1900}
+// (1978..1980 mirror 2019..2021 about the epoch of the lunation count, 2000-01-06: |n| collides)
+var c09Years = []int{2019, 2020, 2021, 2033, 2034, 1582, 15, 16, 9998, 1900, 1978, 1979, 1980}
 
 // c09Ops builds the seeded multiset of descriptors.
 func c09Ops(seed int64, n int) (ops []c09Op, hostile []c09Op) {
@@ -427,7 +447,14 @@ func c09Ops(seed int64, n int) (ops []c09Op, hostile []c09Op) {
 		y := c09Years[rng.Intn(len(c09Years))]
 		_, m, d := day(y)
 		h, mi, s := rng.Intn(24), rng.Intn(60), rng.Intn(60)
-		switch rng.Intn(20) {
+		switch rng.Intn(22) {
+		case 20, 21:
+			y2 := c09Years[rng.Intn(len(c09Years))] + rng.Intn(5) - 2
+			if y2 < 1 {
+				y2 = 1
+			}
+			_, m2, d2 := day(y2)
+			ops = append(ops, c09Op{K: "sub", A: []int{y, m, d, h, mi, s, y2, m2, d2}})
 		case 18:
 			ops = append(ops, c09Op{K: "solar", A: []int{y, m, d, h, mi, s}})
 		case 19:
